@@ -46,7 +46,9 @@ RULE = ("matrix part: every m x n (1<=n<=m<=4, thorough 6; generic members to 8;
         "generic complex/real s<12 (100), nearly dependent kappa 1e2/1e4/1e6 s<6 (30), tied singular "
         "value profiles} x {projection, gmd, least_right_singular_vectors (all k; A^T for k>=nullity), "
         "peig/leig on A^H A and A A^H (all k), whitening of A A^H+eps I and A^H A}; update part: HPD X x "
-        "every d in {0,.5,1,10,1e3}^n; chordal part: all pairs of the tiny exhaustive families, generic "
+        "every d in {0,.5,1,10,1e3}^n, and general invertible X (generic complex non-Hermitian, real "
+        "non-symmetric, inverses of such) x every d in {-2,-.5,0,.5,1,10}^n and complex d in {0,1,.5+.5j,-j}^n "
+        "with well-conditioned partial sums; chordal part: all pairs of the tiny exhaustive families, generic "
         "pairs (s,s+1..s+3), nearly dependent pairs; conv part: 301 points over 30 decades x bits 1..12. "
         "Rank-deficient members and members above the relation's kappa bound are excluded and counted. "
         "A case is non-trivial when the matrix has more than one entry; distinct = distinct "
@@ -426,7 +428,10 @@ def replay_matrix(chk, case):
 # ----------------------------------------------------------------------
 # update_inv_sum_diag
 # ----------------------------------------------------------------------
-D_ALPH = (0.0, 0.5, 1.0, 10.0, 1e3)
+D_ALPH = (0.0, 0.5, 1.0, 10.0, 1e3)          # Hermitian / symmetric positive definite X (DESIGN: d >= 0)
+D_ALPH_GEN = (-2.0, -0.5, 0.0, 0.5, 1.0, 10.0)  # general invertible X: the statement allows any diagonal update
+D_ALPH_CPLX = (0.0, 1.0, 0.5 + 0.5j, -1j)    # complex diagonal (complex X only)
+K_UPD = 1e4                                   # every partial sum A + diag(d_1..d_i,0..) must stay this well conditioned
 
 
 def update_items(tier):
@@ -449,13 +454,41 @@ def update_items(tier):
         for fam, member, X in mats:
             for d in itertools.product(alph, repeat=n):
                 yield (fam, member, X, np.array(d))
+        # general (non-Hermitian complex, non-symmetric real) inverses: the statement is about ANY
+        # invertible matrix and any diagonal; cases whose partial sums get ill conditioned are excluded
+        gen = []
+        for s in range(S):
+            gen.append(("generic_c", s, F.generic(s, (n, n), True, tag=28)))
+            gen.append(("generic_r", s, F.generic(s, (n, n), False, tag=28)))
+            gen.append(("inv_generic_c", s, np.linalg.inv(F.generic(s, (n, n), True, tag=29))))
+        galph = D_ALPH_GEN if (n <= 3 or thorough) else (-0.5, 0.0, 1.0, 10.0)
+        for fam, member, X in gen:
+            for d in itertools.product(galph, repeat=n):
+                yield (fam, member, X, np.array(d))
+            if np.iscomplexobj(X) and n <= 3:
+                for d in itertools.product(D_ALPH_CPLX, repeat=n):
+                    yield (fam + "_cplx_d", member, X, np.array(d, dtype=complex))
 
 
 def run_update(chk, case):
     from pyphysim.util import misc
     X, d = np.asarray(case["X"]), np.asarray(case["d"])
     n = X.shape[0]
+    # conditioning of the problem AND of every intermediate rank-one step (oracle side)
+    kx = F.cond(X)
+    kpart = max(F.cond(np.eye(n) + X * np.concatenate([d[:i], np.zeros(n - i)])[np.newaxis, :])
+                for i in range(1, n + 1))
+    general_fam = case["fam"].startswith(("generic", "inv_generic"))
+    if general_fam and (kx > bound(K_UPD) or kpart > bound(K_UPD)):
+        # (HPD families with d >= 0 are always regular and are judged with their own kappa below)
+        chk.count("excluded_update_partial_sum_ill_conditioned")
+        return
+    herm = bool(N.close(X, H(X), 1.0, 10.0))
     chk.outcome("update_nonzero_d", (n, int(np.count_nonzero(d))))
+    chk.outcome("update_input_class", ("complex" if np.iscomplexobj(X) else "real",
+                                       "hermitian" if herm else "general",
+                                       "d<0" if np.any(np.real(d) < 0) else "d>=0",
+                                       "complex_d" if np.iscomplexobj(d) else "real_d"))
     with chk.guard(("update_inv_sum_diag",), case):
         chk.count("eval_update")
         X0 = X.copy()
@@ -466,8 +499,7 @@ def run_update(chk, case):
             chk.fail(("update_inv_sum_diag", "shape"), case, observed=R.shape, expected=(n, n))
             return
         Mx = np.eye(n) + X * d[np.newaxis, :]               # I + X diag(d)
-        km = F.cond(Mx)
-        kx = F.cond(X)
+        km = max(F.cond(Mx), kpart)
         if kx > bound(K_COV):
             chk.count("excluded_cov_kappa_above_1e8")
             return
@@ -476,12 +508,14 @@ def run_update(chk, case):
         tolR = C * N.EPS * kx * km * N.scale(X) * n
         e1 = N.err(Mx @ R, X)
         if not e1 <= tolR * N.scale(Mx):
-            chk.fail(("update_inv_sum_diag", "(I+X.d).R!=X"), case, observed=e1, expected=0,
+            chk.fail(("update_inv_sum_diag", "(I+X.d).R!=X", "hermitian_input" if herm else "general_input"),
+                     case, observed=e1, expected=0,
                      msg="cond(I+Xd)=%.3g cond(X)=%.3g" % (km, kx))
         Ainv = np.linalg.inv(X) + np.diag(d)                # A + D with A = X^-1 (harness inverse: eps*kx)
         e2 = N.err(R @ Ainv, np.eye(n))
         if not e2 <= tolR * N.scale(Ainv) + C * N.EPS * kx * kx * n:
-            chk.fail(("update_inv_sum_diag", "R.(A+D)!=I"), case, observed=e2, expected=0)
+            chk.fail(("update_inv_sum_diag", "R.(A+D)!=I", "hermitian_input" if herm else "general_input"),
+                     case, observed=e2, expected=0)
         if n > 1:
             chk.nontriv(("update", case["fam"], case["member"], n, tuple(d.tolist())))
 
@@ -725,6 +759,7 @@ def main(chk: Check):
     chk.require_outcomes("whiten", 6)
     chk.require_outcomes("chordal_bucket", 12)
     chk.require_outcomes("update_nonzero_d", 10)
+    chk.require_outcomes("update_input_class", 6)
     chk.require_outcomes("conv_bits", 12)
 
 
